@@ -158,6 +158,7 @@ func sessionFor(cfg runner.Config, fresh bool) (*sessionState, error) {
 		exec.ProbationTimeout = 300 * time.Millisecond
 		exec.VerifSetRetryPolicy(retry.MaxRetries(retry.Backoff(5*time.Millisecond, 50*time.Millisecond, 2), 5))
 		st.sys = faultsys.New(2)
+		st.sys.KeepalivePeriod, st.sys.KeepaliveTimeout, st.sys.KeepaliveRpcTimeout = time.Second, 20*time.Second, 10*time.Second // no machine is ever killed here
 		st.bsess = exec.Start(exec.Bigmachine(st.sys), exec.Parallelism(4))
 	}
 	var err error
